@@ -46,7 +46,7 @@ func (c *Channel) read() {
 	simhook.Enter("chan.reader")
 
 	defer func() {
-		c.readLoopExited = true
+		c.readLoopExited.Store(true)
 	}()
 
 	defer simhook.Yield("chan.read.exit")
@@ -144,7 +144,7 @@ func (c *Channel) Read() ([]byte, error) {
 
 	simhook.Yield("chan.Read.flag")
 
-	if c.readLoopExited {
+	if c.readLoopExited.Load() {
 		return nil, util.ErrConnectionError
 	}
 
